@@ -148,6 +148,12 @@ package core
 // those pods the double membership is then tolerated, so that the rest of the history is still
 // checked and a different violation is not masked. Every other violation ends the case.
 //
+// ECHO (conc)  For 60% of the Permit calls the scheduler goroutine asks the informer goroutine (start
+// barrier, bounded wait) to write and deliver unbound update versions of the very pod being
+// permitted, back to back, until Permit has returned: the overlap "informer inside Gang.setChild for
+// pod p / scheduler inside addAssumedPod for p" is then hit many times per run instead of by chance.
+// Versions stay in order (one informer goroutine); the shadow treats them as any other update.
+//
 // In the concurrent unit informer events overlap scheduler calls. Every shadow fact that can only
 // lower a count (delete, told-bound under only-waiting) is applied for (1) as of the START of the
 // call and only when its delivery had completed; every fact that can only raise it (existence,
@@ -572,6 +578,11 @@ type c04U struct {
 	// ctxMode: the gang scheduling context machinery of the plugin is part of the run (S7): every
 	// scheduler iteration starts with NextPod, pods popped from the queue pass PreEnqueue, every
 	// cycle runs BeforePreFilter, Permit=Success calls SucceedGangScheduling.
+	// conc: the scheduler asks the informer goroutine to deliver updates of exactly the pod it is
+	// about to permit, back to back, while Permit runs (the "echo" of the scheduler's own pod)
+	echo      atomic.Pointer[c04Pod]
+	echoAck   atomic.Bool
+	phaseDone atomic.Bool
 	defPolicy string             // args.DefaultMatchPolicy
 	latest    map[string]*c04Pod // latest incarnation per pod key
 	moves     bool               // seq: pod updates may change the pod's gang name
@@ -1090,6 +1101,17 @@ func (u *c04U) infDeliver(a int, except *c04Pod) bool {
 		u.mu.Unlock()
 		return false
 	}
+	u.mu.Unlock()
+	return u.deliverHead(p)
+}
+
+// deliverHead delivers the oldest undelivered version of p (informer goroutine only).
+func (u *c04U) deliverHead(p *c04Pod) bool {
+	u.mu.Lock()
+	if len(p.queue) == 0 {
+		u.mu.Unlock()
+		return false
+	}
 	v := p.queue[0]
 	u.mu.Unlock()
 	if v.del && u.conc {
@@ -1435,6 +1457,47 @@ func c04PolicyIndex(p string) int {
 		}
 	}
 	return 0
+}
+
+// serveEcho (informer goroutine): while the scheduler keeps its request up, write and deliver
+// unbound update versions of the requested pod back to back (I1, I2 hold: one goroutine, in order).
+func (u *c04U) serveEcho() {
+	p := u.echo.Load()
+	if p == nil {
+		return
+	}
+	u.echoAck.Store(true)
+	n := 0
+	for ; n < 40 && u.echo.Load() == p && !u.stop.Load(); n++ {
+		u.mu.Lock()
+		if len(p.queue) == 0 {
+			if p.apiDeleted {
+				u.mu.Unlock()
+				break
+			}
+			u.rv++
+			p.queue = append(p.queue, c04Ver{node: p.apiNode, rv: u.rv, terminated: p.apiTerminated, gang: p.apiGang})
+		}
+		head := p.queue[0]
+		u.mu.Unlock()
+		if head.del || head.gang != p.gang {
+			break
+		}
+		u.deliverHead(p)
+	}
+	u.c.Count("echo_updates_delivered_during_permit", n)
+}
+
+// echoStart (scheduler goroutine): ask for the echo of p and wait, bounded, until it has begun.
+func (u *c04U) echoStart(p *c04Pod) {
+	u.echoAck.Store(false)
+	u.echo.Store(p)
+	for i := 0; i < 4000 && !u.echoAck.Load(); i++ {
+		runtime.Gosched()
+	}
+	if u.echoAck.Load() {
+		u.c.Count("permits_with_concurrent_echo_of_the_same_pod", 1)
+	}
 }
 
 func (u *c04U) runInformer(it c04Intent, except *c04Pod) {
@@ -1867,7 +1930,11 @@ func (u *c04U) cycle(a int, nodeFound bool, between []c04Intent) bool {
 		u.fail(u.strict(p, "AfterPostFilter", evs))
 		return true
 	}
+	if u.conc && a%5 < 3 {
+		u.echoStart(p)
+	}
 	_, status := u.mgr.Permit(u.ctx, pod)
+	u.echo.Store(nil)
 	u.lastPermit = status
 	u.c.Count("op_permit", 1)
 	switch status {
@@ -2511,6 +2578,7 @@ func TestVerifC04Conc(t *testing.T) {
 				}
 				var wg sync.WaitGroup
 				wg.Add(1)
+				u.phaseDone.Store(false)
 				go func() {
 					defer wg.Done()
 					defer func() {
@@ -2523,11 +2591,16 @@ func TestVerifC04Conc(t *testing.T) {
 						if u.stop.Load() {
 							return
 						}
+						u.serveEcho()
 						c04Jitter(ri)
 						u.mu.Lock()
 						u.order = append(u.order, 'I')
 						u.mu.Unlock()
 						u.runInformer(it, nil)
+					}
+					for !u.phaseDone.Load() && !u.stop.Load() {
+						u.serveEcho()
+						runtime.Gosched()
 					}
 				}()
 				func() {
@@ -2538,6 +2611,8 @@ func TestVerifC04Conc(t *testing.T) {
 							panic(e)
 						}
 					}()
+					defer u.phaseDone.Store(true)
+					defer u.echo.Store(nil)
 					for _, it := range sch {
 						c04Jitter(rs)
 						u.mu.Lock()
